@@ -195,10 +195,18 @@ def step (c : C) : Ev → C × List Out
     (c2, o1 ++ o2)
   | .peer p => if !c.connected then (c, []) else peer c p
   | .apiEarlyAck call ack =>
+    -- The acknowledgement reaches the client after the request was written and before the call
+    -- has registered it.  `publish` (QoS 1/2), `subscribe`, `unsubscribe` and `ping` hold
+    -- `service.ackmu` from before `writeMessage` until `Wait` has returned, and `processIncoming`
+    -- marks an acknowledgement (`service.ack`) under the same mutex: the acknowledgement waits for
+    -- the registration (`Model/AckLock.lean`: no other order is reachable).  A QoS 0 publish
+    -- registers nothing and takes no lock: its completion is fired by the caller's goroutine,
+    -- whatever the packet completes by the processor, and the code does not order the two; the
+    -- model (like the harness, which does not force a window for QoS 0) takes call, then packet.
     if !c.connected then (c, [.apiErr]) else
     let (c1, o1, call') := apiWrite c call
-    let (c2, o2) := peer c1 ack
-    let (c3, o3) := apiRegister c2 call'
+    let (c2, o2) := apiRegister c1 call'
+    let (c3, o3) := peer c2 ack
     (c3, o1 ++ o2 ++ o3)
 
 end Mqtt.Model.Client
